@@ -180,13 +180,15 @@ fn validate_exact<const NA: usize, const NE: usize, const L: usize, const PL: us
         assert!(spec.stdout == so && spec.stderr == se, "fidelity: output policies");
         assert!(spec.timeout_ms == t, "fidelity: timeout (default when unset)");
     }
-    // each limit can trip alone (vacuity guard)
-    kani::cover!(r.is_ok(), "accepted");
+    // each limit can trip alone (vacuity guard); shapes that no cap setting can make valid
+    // (empty program, empty cwd, empty env key) witness the rejection instead
+    let possible = PL > 0 && !(cwd_set && L == 0) && !(NE > 0 && L == 0);
+    kani::cover!(if possible { r.is_ok() } else { r.is_err() }, "accepted (or, for a shape that is never valid, rejected)");
     kani::cover!(NA == 0 || L == 0 || (r.is_err() && prog_ok && count_ok && args_ok && !total_arg_ok), "total argument bytes trips alone");
     kani::cover!(NA == 0 || (r.is_err() && prog_ok && (NA as u32) > caps.max_args && (NE as u32) <= caps.max_env_pairs), "argument count trips alone");
     kani::cover!(NE == 0 || L == 0 || (r.is_err() && prog_ok && count_ok && args_ok && total_arg_ok && cwd_ok && env_ok && !total_env_ok), "total env bytes trips alone");
-    kani::cover!(r.is_err() && prog_ok && count_ok && args_ok && total_arg_ok && cwd_ok && env_ok && total_env_ok && stdin_ok && t == 0, "zero timeout trips alone");
-    kani::cover!(r.is_err() && prog_ok && count_ok && args_ok && total_arg_ok && cwd_ok && env_ok && total_env_ok && stdin_ok && t > caps.max_timeout_ms, "timeout above max trips alone");
+    kani::cover!(!possible || (r.is_err() && prog_ok && count_ok && args_ok && total_arg_ok && cwd_ok && env_ok && total_env_ok && stdin_ok && t == 0), "zero timeout trips alone");
+    kani::cover!(!possible || (r.is_err() && prog_ok && count_ok && args_ok && total_arg_ok && cwd_ok && env_ok && total_env_ok && stdin_ok && t > caps.max_timeout_ms), "timeout above max trips alone");
     kani::cover!(PL == 0 || (r.is_err() && !has(&pb, 0) && (PL as u32) > caps.max_program_bytes), "program bytes trips alone");
     std::mem::forget(r);
     std::mem::forget(cmd);
